@@ -134,10 +134,25 @@ class CoroutineProcessor(Processor):
         if state != CoroutineState.TERMINATED:
             raise ValueError('Cannot start the same generator twice')
 
-        self._active_queue.append(generator)
-        self._generators[generator] = None
         promise = CoroutinePromise(generator, self)
         self._promises[generator] = promise
+
+        # A kill is still pending for this generator: cancel it, so that
+        # the generator is not queued twice
+        if generator in self._kill_queue:
+            self._kill_queue.discard(generator)
+            waiting_gen = self._generators[generator]
+            if waiting_gen is None:     # Already in the active queue
+                return promise
+
+            # Drop the pending wait. Waiting records compare by time
+            # only, hence remove by identity
+            self._wait_queue = [waiting for waiting in self._wait_queue
+                                if waiting is not waiting_gen]
+            heapq.heapify(self._wait_queue)
+
+        self._active_queue.append(generator)
+        self._generators[generator] = None
         return promise
 
     def kill(self, generator: Generator):
